@@ -1,6 +1,7 @@
 /- Line-protocol driver for the numeric toolkit (`Model/Stats.lean`): C16 and the layer-N debiasers. -/
 import IbicusModel.Model.Proto
 import IbicusModel.Model.Stats
+import IbicusModel.Model.StatsSeq
 
 open Proto Model.Stats
 
@@ -48,6 +49,18 @@ def qmapx3 (F : Rat → Rat) (im : IecdfMethod) (x y : List Rat) (dv dp : Rat) (
   else if v < xmin then let r := v + (minQ y - xmin); [r, r, r]
   else qmap3 F im (sortQ y) dv dp v
 
+/-- one operation of a call / update sequence: `ecdf:m:x:ys`, `iecdf:m:x:qs`, `qmap:em:im:x:y:v`, `qmapx:em:im:x:y:v`,
+    `sortlike:x:y`, `upd:i:<list>` (numbers are positions in the store) -/
+def seqOp? (s : String) : Option SeqOp :=
+  match s.splitOn ":" with
+  | ["ecdf", m, x, ys] => do some (.ecdf (← ecdfM? m) (← x.toNat?) (← ys.toNat?))
+  | ["iecdf", m, x, qs] => do some (.iecdf (← iecdfM? m) (← x.toNat?) (← qs.toNat?))
+  | ["qmap", em, im, x, y, v] => do some (.qmap (← ecdfM? em) (← iecdfM? im) (← x.toNat?) (← y.toNat?) (← v.toNat?))
+  | ["qmapx", em, im, x, y, v] => do some (.qmapExtrap (← ecdfM? em) (← iecdfM? im) (← x.toNat?) (← y.toNat?) (← v.toNat?))
+  | ["sortlike", x, y] => do some (.sortLike (← x.toNat?) (← y.toNat?))
+  | ["upd", i, v] => do some (.update (← i.toNat?) (← rats? v))
+  | _ => none
+
 def step (line : String) : String :=
   match line.splitOn " " with
   | ["sort", x] => match rats? x with
@@ -91,13 +104,21 @@ def step (line : String) : String :=
   | ["qmaphist3", im, e, c, y, v, dp] =>
       match iecdfM? im, rats? e, nats? c, rats? y, rats? v, parseRat? dp with
       | some im, some e, some c, some y, some v, some dp =>
-          out (v.flatMap (qmap3 (ecdfHist1 e c) im (sortQ y) 0 dp))
+          out (v.flatMap (fun w => match qmap3 (ecdfHist1 e c) im (sortQ y) 0 dp w with
+            | [lo, _, hi] => [lo, qmapHist1 im e c y w, hi]
+            | l => l))
       | _, _, _, _, _, _ => "bad-op"
   | ["qmapxhist3", im, e, c, x, y, v, dp] =>
       match iecdfM? im, rats? e, nats? c, rats? x, rats? y, rats? v, parseRat? dp with
       | some im, some e, some c, some x, some y, some v, some dp =>
-          out (v.flatMap (qmapx3 (ecdfHist1 e c) im x y 0 dp))
+          out (v.flatMap (fun w => match qmapx3 (ecdfHist1 e c) im x y 0 dp w with
+            | [lo, _, hi] => [lo, qmapExtrapHist1 im e c x y w, hi]
+            | l => l))
       | _, _, _, _, _, _, _ => "bad-op"
+  | ["seq", st, ops] =>
+      match (st.splitOn "|").mapM rats?, (ops.splitOn "|").mapM seqOp? with
+      | some st, some ops => "|".intercalate ((runSeq st ops).map out)
+      | _, _ => "bad-op"
   | _ => "bad-op"
 
 def main : IO Unit := do loop (← IO.getStdin) step
